@@ -39,7 +39,8 @@ REQUIRED = ["probes", "graphs", "graphs_with_cycles", "graphs_with_oneway",
             "both_directions_one_sweep", "quiet_periods_checked", "ports_hot_plugged",
             "histories_with_dpids_equal_to_port_numbers",
             "histories_with_spanning_tree_options", "histories_with_a_flood_everything_flow",
-            "withdrawals_checked_at_disconnect", "ports_deleted", "ports_readded"]
+            "withdrawals_checked_at_disconnect", "ports_deleted", "ports_readded",
+            "reconnects_before_the_old_connection_closed"]
 TIMEOUT = {"quick": 1500, "thorough": 10800}
 
 _st = {}
@@ -436,6 +437,18 @@ def run_history (case, rep):
           rep.count("ports_readded")
       elif k == "up":
         if op[1] not in topo.sw: topo.connect(op[1])
+      elif k == "reboot":
+        # the switch restarts and is back (new connection, ports with their
+        # default configuration) before anybody noticed that its old
+        # connection is dead; that one goes away a little later
+        if op[1] in topo.sw:
+          old = topo.sw[op[1]]
+          topo.connect(op[1])
+          rep.count("reconnects_before_the_old_connection_closed")
+          topo.settle(op[2] if len(op) > 2 else 1.0)
+          try: old.worker.close()
+          except Exception: pass
+          w.run()
       elif k == "hotplug":
         # ports that did not exist when the switch connected are added one
         # by one (each announced with a port-status message)
@@ -681,6 +694,7 @@ def gen_histories (rng, n, link_timeout=None, st_opts=None):
         ops.append(["down", rng.randrange(nsw)])
       elif r < 0.93:
         ops.append(["up", rng.randrange(nsw)])
+        if rng.random() < 0.3: ops.append(["reboot", rng.randrange(nsw), rng.choice([0.5, 2.0, 6.0])])
       else:
         # a port is removed from a switch (announced by port-status), and put
         # back later
